@@ -778,6 +778,27 @@ def env_matrix_cli(c, result, pid, queries, modes=('json', 'text')):
                     return
 
 
+def scan_ruleset(c, rules, tag):
+    """rules: [(file name, query text)] written as rule files into ONE ruleset directory and run with `pathfinder scan`
+    -> list (in walk order of the names) of Counters of (file, line, code), or None when scan did not answer each file"""
+    rdir = '%s/scanrules_%s' % (c.work, tag)
+    shutil.rmtree(rdir, ignore_errors=True)
+    os.makedirs(rdir)
+    for name, q in rules:
+        open(os.path.join(rdir, name), 'wb').write(('/**\n * @id %s\n */\n%s\n' % (name, q)).encode('utf-8'))
+    rc, o, e = run([B + '/pathfinder', 'scan', '--disable-metrics', '--project', c.proj, '--ruleset', rdir], timeout=900, env=dict(ENV, HOME=c.work))
+    outs = [l for l in o.decode('utf-8', 'replace').split('\n') if l.startswith('{"output"')]
+    if len(outs) != len(rules):
+        return None
+    res = []
+    for l in outs:
+        try:
+            res.append(Counter((r['file'], r['line'], r['code']) for r in json.loads(l).get('result_set') or []))
+        except Exception:
+            res.append(None)
+    return res
+
+
 def console_compare(c, result, pid, items, res, what):
     """items: [(qid, one-line text, k)] fed to ONE console session; each answer must be the stand-alone answer res[qid]"""
     items = [(qid, t, k) for qid, t, k in items if '\n' not in t and '\r' not in t and res.get(qid, ('', ''))[0] == 'ok']
@@ -968,6 +989,30 @@ def check_c13(c, result):
     kof = {qid: k for ids, k in groups for qid in ids.values()}
     nested = [(qid, t, kof[qid]) for qid, t in tq if qid in kof and qid.startswith('n')]
     console_compare(c, result, 'C13', nested[:400 if c.tier == 'quick' else 4000], res, 'predicate declarations of the same names in earlier lines')
+    # ... and as the rule files of ONE ruleset run by `scan`: rules with the same FROM / WHERE / SELECT text that declare a
+    # predicate of the same name with DIFFERENT bodies, the same rule with the call written out, with the parameter
+    # renamed, with a never-called declaration
+    mnames = [v for v in dict.fromkeys(c.vocab.get('method_declaration', {}).get('getName', [])) if isinstance(v, str) and v.isidentifier()][:3]
+    if len(mnames) >= 2:
+        w_ = 'FROM method_declaration AS m WHERE sel(m) && m.getName() != "zz" SELECT m.getName()'
+        body = lambda nm, par='x': 'predicate sel(method_declaration %s) { %s.getName() == "%s" } ' % (par, par, nm)
+        srules = [('a_first.cql', body(mnames[0]) + w_), ('b_other_body.cql', body(mnames[1]) + w_), ('c_renamed.cql', body(mnames[1], 'y9') + w_),
+                  ('d_extra.cql', 'predicate never(method_declaration u) { u.getName() == "never" } ' + body(mnames[1]) + w_),
+                  ('e_inlined.cql', 'FROM method_declaration AS m WHERE (m.getName() == "%s") && m.getName() != "zz" SELECT m.getName()' % mnames[1]),
+                  ('f_first_again.cql', body(mnames[0]) + w_)]
+        got = scan_ruleset(c, srules, 'c13')
+        alone, _, _ = c.run([(nm, q) for nm, q in srules])
+        c.stats['c13_scan_rules'] = len(srules)
+        if got is None:
+            result.violations.append(payload_replay('C13', '`scan` did not answer every rule file of a ruleset whose rules declare same-named predicates', [q for _, q in srules], 'pathfinder scan --project D --ruleset R', c.files))
+        else:
+            for (nm, q), g_ in zip(srules, got):
+                oc, payload = alone.get(nm, ('missing', ''))
+                want = Counter(x[0] for x in tuples_of(payload, 1).elements()) if oc == 'ok' else None
+                if want is not None and g_ != want:
+                    result.violations.append(payload_replay('C13', 'in a ruleset run by `scan`, rule %s is answered differently from the same query alone (other rules declare a same-named predicate with another body)' % nm,
+                                                            [q_ for _, q_ in srules], 'alone: %d results; in the ruleset: %s' % (sum(want.values()), sum(g_.values()) if g_ is not None else 'unparsable'), c.files))
+                    break
     c.samples += [tq[0][1], tq[1][1]] if tq else []
     if c.tier == 'thorough':
         import coqcross
